@@ -191,3 +191,16 @@ CHECKS["C16"] = dict(
                  "whole-view mutators (assignment, fill, swap, elements()=, writes through begin/home/elements) on const paths are decided by separate compile probes (one translation unit each, -fsyntax-only): "
                  "every (mutator, path, const root) statement must be ill-formed, and is only counted when its mutable twin compiles"],
 )
+
+CHECKS["C03"] = dict(
+    title="standard algorithms on array/view ranges", level="exploration", engine="E1",
+    claim=("For each of the 20 listed algorithms x three range kinds (begin/end of 1-D views, begin/end of 2-D/3-D views whose dereference is a proxy sub-view, elements() of 2-D/3-D views) x a menu of views "
+           "(rows, columns via rotated/transposed, diagonals, strided, sub-blocks, sub-blocks of rotated arrays, empty and one-element ranges) x ALL assignments of the viewed elements over a small alphabet "
+           "(3^n for n<=5 scalars, 2^n otherwise) x all middle/nth positions and values, the algorithm runs on the real range and the same std:: algorithm runs on a vector of independent values; whole root "
+           "buffers including guards are compared, so elements outside the view are checked unchanged."),
+    jobs=lambda tier: [Job("algomc", cfg="san", defs=["-DALG_KIND=%d" % k], args=["--tier=" + tier]) for k in (0, 1, 2)],
+    rule=("flat enumeration (range kind, view, data assignment, algorithm, position argument); oracle per algorithm class: full equality for sort/stable_sort/reverse/rotate/copy/copy_backward/move/swap_ranges/fill/transform, "
+          "prefix [begin,returned) + untouched outside for unique/remove, postcondition + permutation + untouched outside for partition/nth_element/partial_sort, returned value/position for find/equal/is_sorted/accumulate/"
+          "lexicographical_compare. evaluations = algorithm runs; distinct_nontrivial = (view, data) cases with >= 2 viewed scalars."),
+    assumptions=["reference = libstdc++ algorithm on std::vector<std::vector<int>> (a scalar is a 1-vector; rows compare lexicographically)", "second range of two-range algorithms is the same view of a second root", "g++ 12 -O0 ASan+UBSan, assertions enabled"],
+)
